@@ -271,6 +271,45 @@ class _Cols(ast.NodeTransformer):
         return n
 
 
+def _reduction_kind(prog, fi, e):
+    """('per-shape' | 'whole-set', text) for an expression that reduces a (sensors x shapes) set to norms: which axis is summed.
+    Helpers of the package are looked into (their returned expression); None when no reduction is recognised"""
+    seen = 0
+    work = [(fi, e)]
+    while work and seen < 6:
+        g, x = work.pop()
+        seen += 1
+        for c in ast.walk(x):
+            if not isinstance(c, ast.Call):
+                continue
+            nm = astq.callee_name(prog, g, c) or ""
+            last = nm.split(".")[-1]
+            if nm in ("numpy.vdot",):
+                return "whole-set", f"`{astq.src(c, 40)}`: np.vdot flattens its arguments - one number for all shapes together"
+            if last in ("sum", "nansum", "norm", "mean") and (nm.startswith("numpy.") or nm.startswith(".")):
+                ax = astq.kwarg(c, "axis", 1 if not nm.startswith(".") else 0)
+                if nm.endswith("linalg.norm"):
+                    ax = astq.kwarg(c, "axis", 2)
+                if ax is None:
+                    return "whole-set", f"`{astq.src(c, 40)}` has no axis: it reduces over sensors AND shapes"
+                if isinstance(ax, ast.Constant) and ax.value == 0:
+                    return "per-shape", f"`{astq.src(c, 40)}` reduces over the sensor axis"
+                return None
+            if last == "einsum" and c.args and isinstance(c.args[0], ast.Constant) and isinstance(c.args[0].value, str) and "->" in c.args[0].value:
+                out = c.args[0].value.split("->")[1].strip()
+                return ("per-shape", f"`{astq.src(c, 40)}` keeps one index") if len(out) == 1 else (("whole-set", f"`{astq.src(c, 40)}` sums every index") if out == "" else None)
+            r = None
+            try:
+                r = prog.resolve_call(g, c)
+            except Exception:
+                pass
+            if isinstance(r, FuncInfo) and r.node is not g.node:
+                rets = [n_ for n_ in ast.walk(r.node) if isinstance(n_, ast.Return) and n_.value is not None]
+                if len(rets) == 1:
+                    work.append((r, astq.expr_at(r, rets[0], rets[0].value)))
+    return None
+
+
 def mac_shape(prog, run, fi):
     f = rel(prog.mods[fi.mod].path)
     pos, _, _, _ = astq.params_of(fi.node)
@@ -371,6 +410,14 @@ def mac_shape(prog, run, fi):
             vec += 1
             pu, pv = prov(u), prov(v)
             ok = (pu == {p0} and pv == {p1}) if (len(pu) == 1 and len(pv) == 1) else None
+            # each factor is ONE number per shape (a reduction over the sensors): a reduction over the whole set (np.vdot flattens its
+            # arguments, a sum / norm without axis) gives one number for the set - outer() of two scalars still broadcasts, silently
+            for fac, whose in ((u, p0), (v, p1)):
+                kind = _reduction_kind(prog, fi, fac)
+                if kind is not None:
+                    run.ob("R-mac-shape", fi.qual, "normalisers are one number per shape", kind[0] == "per-shape",
+                           f"`{astq.src(fac, 50)}`: {kind[1]}" + ("" if kind[0] == "per-shape" else f" - every entry of the matrix is divided by a number that belongs to the whole set `{whose}`, not to its own shape"),
+                           witness=kind[1][:80], file=f, node=dv)
             run.ob("R-mac-shape", fi.qual, "entry indices", ok, f"normaliser `{astq.src(den, 70)}`: row factor from {sorted(pu)}, column factor from {sorted(pv)} (rows belong to {p0}, columns to {p1})",
                    witness=f"{sorted(pu)},{sorted(pv)}", file=f, node=dv)
         if not vec:
